@@ -255,6 +255,41 @@ pub fn force_install_counting_hook() {
     }));
 }
 
+/// Captures what the process writes to its standard error stream (file descriptor 2) — this is where the DEFAULT panic
+/// hook prints. C10: while a run is in progress contained panics print nothing through the process panic hook; the
+/// counting hook sees a hook the runner put back too early, the capture sees the default hook (installed by a
+/// `take_hook()` that is not followed by a `set_hook`).
+pub mod errcap {
+    use std::{io::Write as _, os::fd::AsRawFd as _};
+    unsafe extern "C" {
+        fn dup(fd: i32) -> i32;
+        fn dup2(a: i32, b: i32) -> i32;
+        fn close(fd: i32) -> i32;
+    }
+    pub struct Cap { saved: i32, path: std::path::PathBuf }
+    pub fn start() -> Option<Cap> {
+        let path = std::env::temp_dir().join(format!("cvh-stderr-{}.txt", std::process::id()));
+        let f = std::fs::File::create(&path).ok()?;
+        let _ = std::io::stderr().flush();
+        // SAFETY: plain POSIX descriptor duplication; `f` stays open until `dup2` has copied it onto fd 2
+        let saved = unsafe { dup(2) };
+        if saved < 0 { return None; }
+        if unsafe { dup2(f.as_raw_fd(), 2) } < 0 { unsafe { close(saved) }; return None; }
+        Some(Cap { saved, path })
+    }
+    impl Cap {
+        pub fn finish(self) -> String {
+            let _ = std::io::stderr().flush();
+            // SAFETY: restores the descriptor saved by `start`
+            unsafe { dup2(self.saved, 2); close(self.saved); }
+            let text = std::fs::read_to_string(&self.path).unwrap_or_default();
+            let _ = std::fs::remove_file(&self.path);
+            if !text.is_empty() { eprint!("{text}"); }
+            text
+        }
+    }
+}
+
 /// C10 run-level monitor observation: (hook calls during the run, hook calls for one probe panic
 /// after the run, did the stream end with run-Finished)
 pub fn run_with_hook_probe(
@@ -263,13 +298,16 @@ pub fn run_with_hook_probe(
     install_counting_hook();
     HOOK_CALLS.with(|c| c.set(0));
     HOOK_QUIET.with(|q| q.set(true));
+    let cap = errcap::start();
     let out = run(cfg, parser, scripts, rng);
+    // panics printed by the default hook while the run was in progress
+    let printed = cap.map_or(0, |c| c.finish().matches("panicked at").count());
     if out.panicked.is_some() {
         force_install_counting_hook();
     }
-    let during = HOOK_CALLS.with(std::cell::Cell::get);
+    let during = HOOK_CALLS.with(std::cell::Cell::get) + printed;
     let _ = std::panic::catch_unwind(|| panic!("probe"));
-    let after = HOOK_CALLS.with(std::cell::Cell::get) - during;
+    let after = HOOK_CALLS.with(std::cell::Cell::get) - (during - printed);
     HOOK_QUIET.with(|q| q.set(false));
     let last_x = out.log.iter().rev().find(|l| l.starts_with("RX ")).is_some_and(|l| l == "RX X");
     let mon = format!("mon.c10 {during} {after} {}", b(out.ended && last_x));
